@@ -17,10 +17,10 @@ import (
 
 // rowTags are the numeric-type family markers found in one table row.
 type rowTags struct {
-	full   map[string]token.Pos // full type tags (Int8, UInt, Word64, Fix128 …) from module identifiers
-	widths map[int]token.Pos    // bit widths from bounds (math.MaxInt8), native types (int8), width literals
-	signed map[bool]token.Pos   // signedness of native types / math bounds
-	first    string             // the first full tag of the row in source order: the row's own type
+	full     map[string]token.Pos // full type tags (Int8, UInt, Word64, Fix128 …) from module identifiers
+	widths   map[int]token.Pos    // bit widths from bounds (math.MaxInt8), native types (int8), width literals
+	signed   map[bool]token.Pos   // signedness of native types / math bounds
+	first    string               // the first full tag of the row in source order: the row's own type
 	firstPos token.Pos
 }
 
